@@ -17,6 +17,9 @@
 #include "types.h"
 #include "array.h"
 
+#ifndef RAWPRE
+# define RAWPRE 0
+#endif
 #ifndef CTOR_FAIL
 # define CTOR_FAIL 0
 #endif
@@ -136,7 +139,13 @@ void harness(void)
 	buf->_content_traits = &h_traits;
 	data = (uint8_t *) (buf + 1);
 	/* constructed pre-state: n0 live elements */
+#if RAWPRE
+	/* raw (untyped) content that is about to be re-reserved for the managed type */
+	buf->_content_traits = 0;
+	for (i = 0; i < N0MAX * ES; i++) data[i] = 0xEE;
+#else
 	for (i = 0; i < N0MAX; i++) if (i < n0) h_init(data + i * ES, 0);
+#endif
 	buf->_used = n0 * ES;
 	/* two live source elements owned by the harness */
 	h_init(&srcel[0], 0); h_init(&srcel[1], 0);
@@ -211,7 +220,7 @@ void harness(void)
 	}
 #elif OP == OP_ARRAY_RESERVE
 	{
-	int mode = V_IN_RANGE("traits_mode", 0, 1);
+	int mode = RAWPRE ? 1 : (int) V_IN_RANGE("traits_mode", 0, 1);
 	MPT_STRUCT(buffer) *nb = mpt_array_reserve(&arr, len + pos, mode ? &h_traits : (const MPT_STRUCT(type_traits) *) 0);
 	(void) nb;
 	}
